@@ -418,7 +418,11 @@ fn fit_binary<C: Lab>(obs: &mut Obs, tag: &'static str, x: &[Vec<f64>], labels: 
     let n = x.len();
     let xa = to_array2(x, p);
     let ya: Array1<C> = Array1::from(labels.to_vec());
-    let ds = DatasetBase::new(xa.clone(), ya);
+    // the records reach `fit` as a view in the memory layout of the case (the logical matrix is `xa`)
+    let mem = crate::mem::train_mem(x);
+    obs.class(crate::mem::mem_name(mem));
+    let backing = crate::mem::backing(&xa, mem, 1.0e30);
+    let ds = DatasetBase::new(crate::mem::view_of(&backing, mem, n, p), ya);
     // max_iterations left unset = the documented default of 100; the re-fit always sets 2 * MAX_ITER explicitly
     let first_iters = if cfg.unset & UNSET_MAX_ITER != 0 { None } else { Some(MAX_ITER) };
     let build = |max_iter: Option<u64>| {
@@ -593,7 +597,11 @@ fn fit_multi<C: Lab>(obs: &mut Obs, tag: &'static str, x: &[Vec<f64>], labels: &
     let n = x.len();
     let xa = to_array2(x, p);
     let ya: Array1<C> = Array1::from(labels.to_vec());
-    let ds = DatasetBase::new(xa.clone(), ya);
+    // the records reach `fit` as a view in the memory layout of the case (the logical matrix is `xa`)
+    let mem = crate::mem::train_mem(x);
+    obs.class(crate::mem::mem_name(mem));
+    let backing = crate::mem::backing(&xa, mem, 1.0e30);
+    let ds = DatasetBase::new(crate::mem::view_of(&backing, mem, n, p), ya);
     let mut train: Vec<C> = labels.to_vec();
     train.sort();
     train.dedup();
